@@ -86,7 +86,8 @@ type Chunk struct {
 // Proc is a running program.
 type Proc struct {
 	Cmd    *exec.Cmd
-	PTY    *PTY // nil when started without a terminal
+	PTY    *PTY            // nil when started without a terminal
+	Before syscall.Termios // terminal attributes before the program was started
 	mu     sync.Mutex
 	cond   *sync.Cond
 	chunks []Chunk
@@ -123,6 +124,7 @@ func Start(bin string, args, env []string, tty bool, init *syscall.Termios) (*Pr
 			}
 		}
 		p.PTY = pty
+		p.Before, _ = pty.Termios() // the mode the program finds the terminal in
 		cmd.Stdin, cmd.Stdout, cmd.Stderr = pty.Slave, pty.Slave, pty.Slave
 		cmd.SysProcAttr = &syscall.SysProcAttr{Setsid: true, Setctty: true, Ctty: 0}
 		rd = pty.Master
